@@ -384,6 +384,37 @@ def main():
         out.append(f"Definition gen_{name}_passes : list (bool * bool) := ["
                    + "; ".join(f"({str(r_).lower()}, {str(d_).lower()})" for r_, d_ in passes) + "].\n")
 
+    # ---- framebufferUpdateRequest (RFBClient): defaults of width / height, order of the packed fields
+    m = method(rfb, "RFBClient", "framebufferUpdateRequest")
+    if [a_.arg for a_ in m.args.args] != ["self", "x", "y", "width", "height", "incremental"]:
+        raise GenError("framebufferUpdateRequest: parameters changed")
+    dflt = [ast.unparse(d_) for d_ in m.args.defaults]
+    if dflt != ["0", "0", "None", "None", "False"]:
+        raise GenError("framebufferUpdateRequest: defaults changed: " + str(dflt))
+    body = [s_ for s_ in m.body if not (isinstance(s_, ast.Expr) and isinstance(s_.value, ast.Constant))]
+    env = {"x": "x", "y": "y", "incremental": "incremental", "self.width": "cw", "self.height": "ch"}
+    opt = {"width": "width", "height": "height"}
+    for st in body[:-1]:
+        if not (isinstance(st, ast.If) and isinstance(st.test, ast.Compare) and len(st.test.ops) == 1 and isinstance(st.test.ops[0], ast.Is)
+                and isinstance(st.test.left, ast.Name) and st.test.left.id in opt and ast.unparse(st.test.comparators[0]) == "None"
+                and len(st.body) == 1 and not st.orelse and isinstance(st.body[0], ast.Assign)
+                and ast.unparse(st.body[0].targets[0]) == st.test.left.id):
+            raise GenError("framebufferUpdateRequest: expected `if <arg> is None: <arg> = ...` statements")
+        nm = st.test.left.id
+        env[nm] = f"(match {opt.pop(nm)} with Some v => v | None => {zexpr(st.body[0].value, env)} end)"
+    if opt:
+        raise GenError("framebufferUpdateRequest: no default computed for " + ", ".join(opt))
+    wr = body[-1]
+    if not (isinstance(wr, ast.Expr) and isinstance(wr.value, ast.Call) and ast.unparse(wr.value.func) == "self.transport.write"
+            and len(wr.value.args) == 1 and isinstance(wr.value.args[0], ast.Call) and ast.unparse(wr.value.args[0].func) == "pack"):
+        raise GenError("framebufferUpdateRequest: expected self.transport.write(pack(...)) last")
+    pk = wr.value.args[0].args
+    if not (isinstance(pk[0], ast.Constant) and pk[0].value == "!BBHHHH" and len(pk) == 7):
+        raise GenError("framebufferUpdateRequest: the message is no longer pack('!BBHHHH', 3, incremental, x, y, width, height)")
+    flds = [zexpr(a_, env) for a_ in pk[1:]]
+    out.append("Definition gen_fbur_fields (cw ch x y : Z) (width height : option Z) (incremental : Z) : list Z :=\n  ["
+               + "; ".join(flds) + "].\n")
+
     # ---- the VNC-authentication key (rfb._vnc_des)
     m = function(rfb, "_vnc_des")
     stm = [s for s in m.body if not (isinstance(s, ast.Expr) and isinstance(s.value, ast.Constant))]
